@@ -550,6 +550,18 @@ CppCheck::CppCheck(const Settings& settings,
     , mExecuteCommand(std::move(executeCommand))
 {}
 
+#ifdef DANMAR_CPPCHECK_VERIF
+ErrorLogger& CppCheck::verifLogger()
+{
+    return mErrorLogger;
+}
+
+unsigned int CppCheck::verifExitCode() const
+{
+    return mLogger->exitcode();
+}
+#endif
+
 CppCheck::~CppCheck()
 {
     mLogger->setAnalyzerInfo(nullptr);
